@@ -155,6 +155,8 @@ def cases(tier, seed):
     for k, v in enumerate(vs):
         if isinstance(v, str) and type(v) is str:
             yield ("typed-string", k, v)
+    for k in range(6):
+        yield ("type-constructors", k, None)
     for k in range(3):
         yield ("pulse-like-names", k, None)
     for k, name in enumerate(IDEAL):
@@ -221,6 +223,33 @@ def check_case(case):
             if pv is None or pv.WhichOneof("value") != "literal" or pv.literal != v:
                 return ("typed-string.value", f"{iname}.{pn} given {v!r}, exported "
                                               f"{(pv.literal if pv is not None else None)!r}", w)
+        return None
+    if kind == "type-constructors":
+        # the transistor / bipolar type given by the constructor used (Nmos(), Pmos(), Mos(), Npn(), Pnp(), Bipolar(), with
+        # and without other parameters), whatever other constructors were called before or after in the process
+        import itertools as _it
+        ctors = [("Nmos", lambda: h.Nmos(), "NMOS"), ("Pmos", lambda: h.Pmos(), "PMOS"), ("Mos", lambda: h.Mos(), "NMOS"),
+                 ("PmosW", lambda: h.Pmos(w=1 * h.prefix.µ), "PMOS"), ("Pnp", lambda: h.Pnp(), "PNP"), ("Npn", lambda: h.Npn(), "NPN"),
+                 ("Bipolar", lambda: h.Bipolar(), "NPN")]
+        order = list(_it.permutations(range(len(ctors))))[k * 719 % 5040]
+        m = h.Module(name="PT")
+        m.s = h.Signal()
+        calls = {}
+        for i in order:                      # all constructed first, in this order ...
+            calls[i] = ctors[i][1]()
+        for i in sorted(calls):              # ... then instantiated
+            c = calls[i]
+            m.add(c(**{p.name: m.s for p in c.prim.port_list}), name="x" + ctors[i][0])
+        try:
+            pkg = h.to_proto(m)
+        except Exception as e:
+            return (f"type-ctor.raises.{type(e).__name__}", f"{type(e).__name__}: {str(e)[:120]}", w)
+        got = {i.name: {p.name: p.value for p in i.parameters} for i in pkg.modules[-1].instances}
+        for nm, _, want in ctors:
+            pv = got["x" + nm].get("tp")
+            if pv is None or pv.literal != want:
+                return ("type-ctor.value", f"h.{nm.rstrip('W')}() exported with tp={getattr(pv, 'literal', None)!r}, expected {want!r} "
+                                           f"(constructors called in the order {[ctors[i][0] for i in order]})", w)
         return None
     if kind == "explicit-none":
         # a parameter explicitly given as None is omitted from the export, whatever its declared default
